@@ -2,6 +2,7 @@
 import DriverLib.Gens
 import DriverLib.WorldDrv
 import DriverLib.ParseDrv
+import DriverLib.TowerDrv
 open Lean Drv
 
 partial def dispatch (j : Json) : R Json := do
@@ -14,6 +15,8 @@ partial def dispatch (j : Json) : R Json := do
   | "gen" => handleGen j
   | "world" => handleWorld j
   | "parse" => handleParse j
+  | "tower" => handleTower j
+  | "page" => handlePage j
   | k => throw s!"unknown kind {k}"
 
 partial def loop (h : IO.FS.Stream) (out : IO.FS.Stream) : IO Unit := do
